@@ -1203,23 +1203,26 @@ class ModelBuilder:
                     return None
             return current  # type: ignore[return-value]
         else:
-            # Search from project root
-            for task in project.tasks:
-                if task.id == parts[0]:
-                    if len(parts) == 1:
-                        return task  # type: ignore[return-value]
-                    # Navigate path
-                    current = task
-                    for part in parts[1:]:
-                        found = None
-                        for child in current.children:
-                            if child.id == part:
-                                found = child
-                                break
-                        if found:
-                            current = found
-                        else:
-                            return None
+            # Search from project root: the first id of an absolute path names a top-level task.
+            # Nested tasks with that local id are only considered when no top-level task leads
+            # to the referenced task (lenient lookup of a unique nested id).
+            all_tasks = list(project.tasks)
+            candidates = [t for t in all_tasks if t.parent is None] + [t for t in all_tasks if t.parent is not None]
+            for task in candidates:
+                if task.id != parts[0]:
+                    continue
+                # Navigate path
+                current = task
+                for part in parts[1:]:
+                    found = None
+                    for child in current.children:
+                        if child.id == part:
+                            found = child
+                            break
+                    current = found
+                    if current is None:
+                        break
+                if current is not None:
                     return current  # type: ignore[return-value]
         return None
 
